@@ -1,90 +1,235 @@
-/* c10_trace.c - recording driver for C10 (validate direction): runs MatrixPreprocess / TensorPreprocess on generated
- * matrices inside the property's quantifier and logs, per column, the integer data and the integer projection of what
- * the library returned; TLC recomputes the exact statistics (spec/TracePreprocess.tla).
+/* c10_trace.c - recording driver for C10 (validate direction): runs MatrixPreprocess / TensorPreprocess and the column
+ * statistic routines on generated matrices inside the property's quantifier and logs, per column, the integer data and
+ * the integer projection of what the library returned; TLC recomputes the exact statistics (spec/TracePreprocess.tla).
  *
- * usage: c10_trace <out.ndjson> <seed> <nmatrices>
- * Data: cell(i,j) = (piv_j + d_ij) * 2^-e, e in {0,4,10}; |d| <= 400; r in 2..60, c in 1..20; option -1..5;
+ * usage: c10_trace <out.ndjson> <seed> <nmatrices> [main|deg]
+ * Data: cell(i,j) = (piv_j + d_ij) * 2^-e / q;  |d| <= 400; r in 2..60, c in 1..20; option -1..5;
+ *   q = 1 with e in {-20,-10,0,4,10} (dyadic grid: cells and column sums exact in double) or
+ *   q in {10,3,1000,7,49,100} with e = 0 (class K5: cells not representable, sum/n one ulp off the value);
  *   up to 20 % MISSING cells (every column keeps >= 2 present cells); pivots up to 1e6 in real units (|piv| <= 4000
- *   units for RMS scaling so that TLC can square the raw values in 32 bits); column spread (sample sdev) >= 0.02 or
- *   exactly 0; column mean exactly 0 or >= 1e-3 in magnitude; for level scaling at e = 10 about a third of the
- *   columns get a mean in [1e-3, 1e-2) (between the implementation's two zero-scale thresholds).
- * Events: Reset{id,type,r,c,e} then per column Col, Avg, Scale, Cells, Same, New; Copy for option -1; Tensor.
+ *   units for RMS scaling so that TLC can square the raw values in 32 bits; |piv| <= 1e6 units for non-constant columns
+ *   on a non-dyadic grid so that the input rounding stays far below the integer grid of the projection); column spread
+ *   (sample sdev) >= 0.02 or exactly 0; column mean exactly 0 or >= 1e-3 in magnitude; for level scaling at e = 10 about
+ *   a third of the columns get a mean in [1e-3, 1e-2) (between the implementation's two former zero-scale thresholds).
+ * The matrices follow a fixed schedule of 12 slots (id % 12) so that every input class of INPUT-CLASSES.md that lies
+ * inside the quantifier is emitted in every run: legacy random, K5 (non-representable constants, rows 3/7/10/49/60, with
+ * MISSING cells, with large offsets, zero-mean, tied values), K1/K2 (shape relations and boundaries), K9 (MISSING in the
+ * first / last row), K8 (duplicate rows / columns, ties, constant among informative), K4 (units 2^10, 2^20), K7 (outputs
+ * already sized and holding other data, refit after a fit of another shape).  Reset and Col carry the class tags.
+ * Events: Reset{id,type,r,c,exp,den,tags} then per column Col, Avg, Scale, Cells, Same, New [, Stat x6]; Copy for
+ *   option -1; Again (K7); Tensor.  Mode deg (outside the quantifier, reported as EXTRA only): one column per matrix has
+ *   fewer than two present cells: DegCol, Deg.
  */
 #include "scientific.h"
 #include "verif_rt.h"
 
 #define MISS 99999999L
-static long clampq(double x){ if(!(x == x)) return VQ_MAX; if(x > 2e9) return VQ_MAX; if(x < -2e9) return -VQ_MAX; return (long)llround(x); }
-static long pw4(int e){ long r = 1; for(int i = 0; i < e; i++) r *= 4; return r; }
-/* minimum N*SSD-numerator (N*S2 - S1^2) for a spread of >= 0.02 at unit 2^-e; same integer rule is re-checked by the runner */
-static long long min_ssd(int e, long N){ if(e == 0) return 1; if(e == 4) return (N * (N - 1) + 8) / 9; return 420LL * N * (N - 1); }
+typedef long double LD;
+static long clampq(LD x){ if(!(x == x)) return VQ_MAX; if(x > 2e9L) return VQ_MAX; if(x < -2e9L) return -VQ_MAX; return (long)llroundl(x); }
+/* spread >= 0.02 in real units:  ssd/(N(N-1)) * (2^-e/q)^2 >= 4e-4  <=>  2500 ssd >= N(N-1) q^2 4^e  (the runner re-checks the same rule) */
+static int spread_ok(long long ssd, long N, int e, long q){
+  if(ssd == 0) return 1;
+  LD lhs = 2500.0L * (LD)ssd, rhs = (LD)N * (LD)(N - 1) * (LD)q * (LD)q;
+  if(e >= 0) rhs *= ldexpl(1.0L, 2 * e); else lhs *= ldexpl(1.0L, -2 * e);
+  return lhs >= rhs;
+}
+/* mean exactly 0 or |mean| >= 1e-3:  1000 |p N + S1| >= N q 2^e */
+static int mean_ok(long long tot, long N, int e, long q){
+  if(tot == 0) return 1;
+  LD lhs = 1000.0L * (LD)llabs(tot), rhs = (LD)N * (LD)q;
+  if(e >= 0) rhs *= ldexpl(1.0L, e); else lhs *= ldexpl(1.0L, -e);
+  return lhs >= rhs;
+}
 
 typedef struct { matrix *m, *t; dvector *a, *s; } kept;
 #define KEEP 4
+#define MAXC 20
+#define MAXTAG 512
+
+static void tag(char *buf, const char *t){ size_t n = strlen(buf); snprintf(buf + n, MAXTAG - n, "%s\"%s\"", n ? "," : "", t); }
+static const char *SLOTS[12] = {"legacy", "K5", "legacy", "K1K2", "K5", "K9", "legacy", "K8", "K5", "K4", "legacy", "K7"};
+static const int K5ROWS[5] = {3, 7, 10, 49, 60};
+static const long K5DEN[6] = {10, 3, 1000, 7, 49, 100};
+static const int SHAPES[][2] = { {2,1},{2,2},{2,3},{2,20},{3,4},{4,3},{4,4},{5,4},{4,5},{7,8},{8,8},{9,8},{8,7},{15,16},{16,16},{17,16},{19,20},{20,20},
+                                 {21,20},{31,5},{32,3},{33,2},{59,4},{60,1},{60,20},{3,20},{12,13},{16,4},{32,16},{60,7} };
+#define NSHAPES (int)(sizeof SHAPES / sizeof SHAPES[0])
 
 int main(int argc, char **argv){
-  if(argc < 4){ fprintf(stderr, "usage: c10_trace out.ndjson seed nmat\n"); return 2; }
+  if(argc < 4){ fprintf(stderr, "usage: c10_trace out.ndjson seed nmat [main|deg]\n"); return 2; }
   vrt_open(argv[1]);
+  long seed = atol(argv[2]);
   vrng R = { (uint64_t)atoll(argv[2]) * 0x9E3779B97F4A7C15ULL + 12345 };
   long nmat = atol(argv[3]);
+  int degmode = argc > 4 && strcmp(argv[4], "deg") == 0;
   static const int ES[3] = {0, 4, 10};
   kept keep[KEEP]; int nkeep = 0, keeptype = -9;
   static char buf[1 << 16];
+  long k5count = seed % 6, shapecount = (seed % 5) * 6;
   for(long id = 0; id < nmat; id++){
-    int type = (int)vr_int(&R, -1, 5);
+    const char *slot = degmode ? "deg" : SLOTS[id % 12];
+    int isK5 = !strcmp(slot, "K5"), isK1 = !strcmp(slot, "K1K2"), isK9 = !strcmp(slot, "K9"), isK8 = !strcmp(slot, "K8"),
+        isK4 = !strcmp(slot, "K4"), isK7 = !strcmp(slot, "K7");
+    int type = (int)((id / 12 + seed) % 7) - 1;
     int e = ES[vr_int(&R, 0, 2)];
+    long q = 1;
     int r = (int)(vr_unif(&R) < 0.3 ? vr_int(&R, 2, 6) : vr_int(&R, 2, 60));
     int c = (int)vr_int(&R, 1, 20);
-    double u = ldexp(1.0, -e);
+    int reuse = isK7 || vr_unif(&R) < 0.15, duprows = 0, missmode = 1, withstat = isK5 || (id % 3 == 0);
+    if(isK5){ type = (int)(k5count % 6); q = K5DEN[(k5count / 6 + k5count) % 6]; e = 0; r = K5ROWS[(k5count / 2 + k5count / 12) % 5]; c = (int)vr_int(&R, 4, 10); k5count++; }
+    if(isK1){ r = SHAPES[shapecount % NSHAPES][0]; c = SHAPES[shapecount % NSHAPES][1]; shapecount++; }
+    if(isK9){ r = (int)vr_int(&R, 5, 60); missmode = r >= 10 ? (int)vr_int(&R, 2, 4) : (int)vr_int(&R, 2, 3); if(type < 0) type = 4; }
+    if(isK8){ duprows = (id / 12) % 2 == 0; if(r < 4) r = 4 + (int)vr_int(&R, 0, 20); if(c < 3) c = 3 + (int)vr_int(&R, 0, 6); }
+    if(isK4){ e = (id / 12) % 2 ? -10 : -20; }
+    if(isK7 && type < 0) type = (int)vr_int(&R, 0, 5);
+    if(degmode){ type = (int)(id % 6); e = (id / 6) % 2 ? 4 : 0; r = (int)vr_int(&R, 2, 10); c = (int)vr_int(&R, 5, 8); missmode = 0; reuse = 0; withstat = 0; }
+    int degcol = degmode ? (int)vr_int(&R, 0, c - 1) : -1, degN = (int)((id / 2) % 2);   /* that column keeps degN (0 or 1) present cells */
+    LD unitfac = (LD)q * ldexpl(1.0L, e);          /* value in units = value * unitfac */
     long *d = malloc(sizeof(long) * r * c), *piv = malloc(sizeof(long) * c);
+    char ctags[MAXC][MAXTAG]; char mtags[MAXTAG]; mtags[0] = 0;
+    int ckind[MAXC];
 #define D(i,j) d[(size_t)(i) * c + (j)]
-    double pmiss = vr_unif(&R) < 0.4 ? 0.0 : 0.2 * vr_unif(&R);
+    double pmiss = (missmode == 0 || vr_unif(&R) < 0.4) ? 0.0 : 0.2 * vr_unif(&R);
     long budget = (long)(0.2 * r * c);            /* at most 20 % missing cells */
+    if(degmode) budget -= r;                       /* reserved for the degenerate column */
+    LD minsd = 0.02L * unitfac;                    /* smallest admissible non-zero sdev in units */
     for(int j = 0; j < c; j++){
-      long Dmax = e == 10 ? vr_int(&R, 64, 400) : (e == 4 ? vr_int(&R, 4, 400) : vr_int(&R, 1, 400));
-      int constant = vr_unif(&R) < 0.12;
+      ctags[j][0] = 0;
+      long lo = (long)ceill(2.0L * minsd); if(lo < 1) lo = 1; if(lo > 300) lo = 300;
+      long Dmax = vr_int(&R, e == 10 && q == 1 ? 64 : (e == 4 && lo < 4 ? 4 : lo), 400);
+      /* column kind: G general, C constant, Z zero mean (p N + S1 = 0), T ties (2..3 distinct values), D duplicate of column j-1, X degenerate */
+      int kind = vr_unif(&R) < 0.12 ? 'C' : 'G';
+      double w0 = vr_unif(&R);
+      if(isK5) kind = w0 < 0.55 ? 'C' : (w0 < 0.7 ? 'Z' : (w0 < 0.85 ? 'T' : 'G'));
+      else if(isK8) kind = j > 0 && w0 < 0.25 ? 'D' : (w0 < 0.5 ? 'T' : (w0 < 0.65 ? 'C' : 'G'));
+      else if(w0 < 0.06 && !duprows) kind = 'Z';
+      else if(w0 < 0.10) kind = 'T';
+      int forcerow = -1, forcebig = 0;
+      if(isK5 && (j == 0 || j == 2 || j == 3)) kind = 'C';           /* every K5 matrix has constant columns: plain, ... */
+      if(isK5 && j == 1) kind = 'G';                                 /* ... among informative ones, ... */
+      if(isK5 && j == 2 && r > 3) forcerow = 1;                      /* ... constant except for a MISSING cell, ... */
+      if(isK5 && j == 3) forcebig = 1;                               /* ... and with a large offset */
+      if(kind == 'Z' && duprows) kind = 'G';
+      if(j == degcol) kind = 'X';
+      int firstmiss = (missmode == 2 || missmode == 4), lastmiss = (missmode == 3 || missmode == 4);
+      if(isK9 && vr_unif(&R) < 0.3){ firstmiss = lastmiss = 0; }      /* some columns of a K9 matrix stay complete */
+      long N = 0, used = 0; long long S1 = 0, S2 = 0;
+      if(kind == 'D'){
+        used = 0; for(int i = 0; i < r; i++) if(D(i, j - 1) == MISS) used++;
+        if(used > budget || ckind[j - 1] == 'X') kind = 'G';
+        else{ for(int i = 0; i < r; i++) D(i, j) = D(i, j - 1); piv[j] = piv[j - 1]; budget -= used; ckind[j] = 'D';
+              snprintf(ctags[j], MAXTAG, "%s", ctags[j - 1]); tag(ctags[j], "K8:dup-col"); continue; }
+      }
+      if(kind == 'X'){
+        int keepi = (int)vr_int(&R, 0, r - 1);
+        for(int i = 0; i < r; i++) D(i, j) = (degN == 1 && i == keepi) ? vr_int(&R, -Dmax, Dmax) : MISS;
+        piv[j] = vr_int(&R, -1000, 1000); ckind[j] = 'X';
+        tag(ctags[j], degN ? "KX:single-present-cell" : "KX:whole-column-missing");
+        continue;
+      }
+      long tv[3]; int ntv = (int)vr_int(&R, 2, 3);
       for(int attempt = 0; ; attempt++){
-        long N = 0; long long S1 = 0, S2 = 0; long used = 0;
         long cv = vr_int(&R, -Dmax, Dmax);
+        for(int a = 0; a < 3; a++) tv[a] = vr_int(&R, -Dmax, Dmax);
+        used = 0;
         for(int i = 0; i < r; i++){
-          if(vr_unif(&R) < pmiss && used < budget && (r - used) > 2){ D(i, j) = MISS; used++; continue; }
-          long x = constant ? cv : vr_int(&R, -Dmax, Dmax);
-          D(i, j) = x; N++; S1 += x; S2 += (long long)x * x;
+          int forced = (i == 0 && firstmiss) || (i == r - 1 && lastmiss) || i == forcerow;
+          if((forced || vr_unif(&R) < pmiss) && used < budget && (r - used) > 2){ D(i, j) = MISS; used++; continue; }
+          D(i, j) = kind == 'C' ? cv : (kind == 'T' ? tv[vr_int(&R, 0, ntv - 1)] : vr_int(&R, -Dmax, Dmax));
+        }
+        if(duprows){ D(r - 1, j) = D(0, j); if(r >= 6) D(r - 2, j) = D(1, j); }
+        N = 0; used = 0; S1 = 0; S2 = 0;
+        for(int i = 0; i < r; i++){ if(D(i, j) == MISS){ used++; continue; } N++; S1 += D(i, j); S2 += (long long)D(i, j) * D(i, j); }
+        if(kind == 'Z' && N >= 2){
+          long rem = (long)(((S1 % N) + N) % N);
+          for(int i = 0; i < r && rem; i++) if(D(i, j) != MISS && D(i, j) - rem >= -400){ S2 += (long long)(D(i, j) - rem) * (D(i, j) - rem) - (long long)D(i, j) * D(i, j); D(i, j) -= rem; S1 -= rem; rem = 0; }
+          if(rem){ if(attempt > 40) kind = 'C'; continue; }
         }
         long long ssd = N * S2 - S1 * S1;
-        if(N >= 2 && (ssd == 0 || ssd >= min_ssd(e, N))){ budget -= used; break; }
-        if(attempt > 40){ constant = 1; pmiss = 0; }
+        if(used > budget){ pmiss = 0; firstmiss = lastmiss = 0; continue; }
+        if(N >= 2 && spread_ok(ssd, N, e, q) && (kind == 'C' || ssd > 0 || attempt > 40)){ budget -= used; break; }
+        if(attempt > 40){ kind = 'C'; pmiss = 0; }
       }
+      ckind[j] = kind;
+      long long ssd = N * S2 - S1 * S1;
+      int isconst = ssd == 0;
       /* pivot (offset) */
-      long N = 0; long long S1 = 0; for(int i = 0; i < r; i++) if(D(i, j) != MISS){ N++; S1 += D(i, j); }
       long p; double w = vr_unif(&R);
-      long big = (long)(1000000.0 * ldexp(1.0, e)); if(big > 1000000000L) big = 1000000000L;
-      if(type == 2) p = w < 0.3 ? 0 : vr_int(&R, -4000, 4000);
+      LD bigl = 1000000.0L * unitfac; long big = bigl > 1000000000.0L ? 1000000000L : (long)bigl; if(big < 1) big = 1;
+      if(q != 1 && !isconst && big > 1000000L) big = 1000000L;       /* non-dyadic, informative: keep the input rounding of the spread far below the integer grid */
+      if(kind == 'Z' && ((long long)(-S1 / N)) * N + S1 == 0) p = (long)(-S1 / N);
+      else if(type == 2){ long lim = big < 4000 ? big : 4000; p = w < 0.3 ? 0 : vr_int(&R, -lim, lim); }
+      else if(isK5 && isconst && (forcebig || w < 0.4)) p = (vr_unif(&R) < 0.5 ? -1 : 1) * vr_int(&R, big / 10, big);   /* K5 with a large offset: 1e5..1e6 real */
       else if(w < 0.2) p = 0;
       else if(w < 0.45) p = vr_int(&R, -100, 100);
-      else if(w < 0.7) p = vr_int(&R, -100000, 100000);
+      else if(w < 0.7) p = vr_int(&R, -100000 < -big ? -big : -100000, 100000 > big ? big : 100000);
       else p = (vr_unif(&R) < 0.5 ? -1 : 1) * vr_int(&R, big / 10, big);
-      if(type == 5 && e == 10 && vr_unif(&R) < 0.35){
+      if(type == 5 && e == 10 && q == 1 && kind != 'Z' && vr_unif(&R) < 0.35){
         /* mean = p + S1/N in [k, k+1), k in 2..9 units of 2^-10: 0.002 .. 0.0098 */
         long fl = (long)floor((double)S1 / (double)N);
         long k = vr_int(&R, 2, 9);
         p = k - fl;
-        if(vr_unif(&R) < 0.5){ for(int i = 0; i < r; i++) if(D(i, j) != MISS) D(i, j) = -D(i, j); S1 = -S1; p = -p; }
+        if(!duprows && vr_unif(&R) < 0.5){ for(int i = 0; i < r; i++) if(D(i, j) != MISS) D(i, j) = -D(i, j); S1 = -S1; p = -p; }
       }
-      /* mean exactly 0 or |mean| >= 1e-3:  1000 * |p N + S1| >= N 2^e */
-      for(;;){ long long tot = (long long)p * N + S1; if(tot == 0 || 1000 * llabs(tot) >= (long long)N * (1LL << e)) break; p += (tot > 0 ? 1 : -1) * (1 + (1L << e) / 1000); }
+      /* mean exactly 0 or |mean| >= 1e-3 */
+      for(;;){ long long tot = (long long)p * N + S1; if(mean_ok(tot, N, e, q)) break; p += (tot > 0 ? 1 : -1) * (1 + (long)(unitfac / 1000.0L)); }
       piv[j] = p;
+      /* class tags of the column */
+      {
+        long long tot = (long long)p * N + S1; LD offreal = fabsl((LD)p) / unitfac;
+        if(q != 1){
+          if(isconst){ tag(ctags[j], "K5:const-nonrep"); if(used) tag(ctags[j], "K5:const-nonrep-missing"); if(offreal >= 1e4L) tag(ctags[j], "K5:const-nonrep-bigoffset"); }
+          else if(tot == 0) tag(ctags[j], "K5:zero-mean-nonrep");
+          else tag(ctags[j], kind == 'T' ? "K5:tied-nonrep" : "K5:informative-nonrep");
+        }
+        if(isconst && c > 1) tag(ctags[j], "K8:const-among-informative");
+        if(kind == 'T' && !isconst) tag(ctags[j], "K8:ties");
+        if(q == 1 && tot == 0) tag(ctags[j], "K8:zero-mean");
+        if(offreal >= 1e5L) tag(ctags[j], "K3:offset>=1e5");
+        if(!isconst){ LD sd = sqrtl((LD)ssd / ((LD)N * (LD)(N - 1))), mn = fabsl((LD)tot / (LD)N); if(mn / sd >= 1e6L) tag(ctags[j], "K3:mean/sdev>=1e6"); else if(mn / sd >= 1e3L) tag(ctags[j], "K3:mean/sdev>=1e3"); }
+        if(D(0, j) == MISS) tag(ctags[j], "K9:first-row-missing");
+        if(D(r - 1, j) == MISS) tag(ctags[j], "K9:last-row-missing");
+        if(used && D(0, j) != MISS && D(r - 1, j) != MISS) tag(ctags[j], "K9:inner-missing");
+      }
+    }
+    /* matrix-level class tags */
+    {
+      char s[64]; snprintf(s, sizeof s, "slot:%s", slot); tag(mtags, s);
+      tag(mtags, r > c ? "K1:tall" : (r == c ? "K1:square" : "K1:wide"));
+      if(r == c + 1 || r + 1 == c) tag(mtags, "K1:n=p+-1");
+      if(c == 1) tag(mtags, "K1:single-column");
+      if(r == 2) tag(mtags, "K1:two-rows");
+      if(r % 4 == 0) tag(mtags, "K2:rows-mult4"); else if(r % 4 == 1 || r % 4 == 3) tag(mtags, "K2:rows-mult4+-1");
+      if(r >= 31 && r <= 33) tag(mtags, "K2:rows-32+-1");
+      if(r == 60) tag(mtags, "K2:rows-60"); if(c == 20) tag(mtags, "K2:cols-20");
+      if(c % 4 == 0) tag(mtags, "K2:cols-mult4"); else if(c % 4 == 1 || c % 4 == 3) tag(mtags, "K2:cols-mult4+-1");
+      if(e == -10) tag(mtags, "K4:unit-2^10"); if(e == -20) tag(mtags, "K4:unit-2^20"); if(e == 10 && q == 1) tag(mtags, "K4:unit-2^-10");
+      if(q != 1){ snprintf(s, sizeof s, "K5:unit-1/%ld", q); tag(mtags, s); snprintf(s, sizeof s, "K5:option%d", type); tag(mtags, s); snprintf(s, sizeof s, "K5:rows-%d", r); tag(mtags, s); }
+      if(reuse) tag(mtags, "K7:outputs-presized-holding-other-data");
+      if(duprows) tag(mtags, "K8:dup-rows");
     }
     matrix *m, *t; dvector *avg, *sc; NewMatrix(&m, r, c); NewMatrix(&t, r, c); initDVector(&avg); initDVector(&sc);
-    for(int i = 0; i < r; i++) for(int j = 0; j < c; j++) m->data[i][j] = D(i, j) == MISS ? (double)MISS : (double)(piv[j] + D(i, j)) * u;
-    VRT_EMIT("{\"e\":\"Reset\",\"id\":%ld,\"type\":%d,\"r\":%d,\"c\":%d,\"exp\":%d}", id, type, r, c, e);
+    const double PRE1 = 7.25, PRE2 = -3.5;
+    for(int i = 0; i < r; i++) for(int j = 0; j < c; j++){
+      m->data[i][j] = D(i, j) == MISS ? (double)MISS : (q == 1 ? ldexp((double)(piv[j] + D(i, j)), -e) : (double)(piv[j] + D(i, j)) / (double)q);
+      if(reuse) t->data[i][j] = PRE1;
+    }
+    VRT_EMIT("{\"e\":\"Reset\",\"id\":%ld,\"type\":%d,\"r\":%d,\"c\":%d,\"exp\":%d,\"den\":%ld,\"reuse\":%d,\"tags\":[%s]}", id, type, r, c, e, q, reuse, mtags);
     MatrixPreprocess(m, type, avg, sc, t);
     matrix *t2; NewMatrix(&t2, r, c);
+    if(reuse) for(int i = 0; i < r; i++) for(int j = 0; j < c; j++) t2->data[i][j] = PRE2;
     MatrixPreprocess(m, type, avg, sc, t2);
-    /* three new rows */
-    long ny[3][20]; matrix *y, *t3; NewMatrix(&y, 3, c); initMatrix(&t3);
-    for(int a = 0; a < 3; a++) for(int j = 0; j < c; j++){ ny[a][j] = vr_int(&R, -800, 800); y->data[a][j] = (double)(piv[j] + ny[a][j]) * u; }
+    /* three new rows; in K9 matrices the last one carries MISSING in every other column */
+    long ny[3][MAXC]; matrix *y, *t3; NewMatrix(&y, 3, c);
+    if(reuse){ NewMatrix(&t3, 3, c); for(int a = 0; a < 3; a++) for(int j = 0; j < c; j++) t3->data[a][j] = PRE1; } else initMatrix(&t3);
+    for(int a = 0; a < 3; a++) for(int j = 0; j < c; j++){
+      ny[a][j] = vr_int(&R, -800, 800);
+      if(isK9 && a == 2 && j % 2 == 0) ny[a][j] = MISS;
+      y->data[a][j] = ny[a][j] == MISS ? (double)MISS : (q == 1 ? ldexp((double)(piv[j] + ny[a][j]), -e) : (double)(piv[j] + ny[a][j]) / (double)q);
+    }
     if(type >= 0) MatrixPreprocess(y, type, avg, sc, t3);
+    /* the column-statistic routines called directly (outside the statement: EXTRA) */
+    dvector *da = NULL, *ds = NULL, *dv = NULL, *dr = NULL;
+    if(withstat && type >= 0){ initDVector(&da); initDVector(&ds); initDVector(&dv); initDVector(&dr); MatrixColAverage(m, da); MatrixColSDEV(m, ds); MatrixColVar(m, dv); MatrixColRMS(m, dr); }
     if(type < 0){
       int eq = 1; for(int i = 0; i < r; i++) for(int j = 0; j < c; j++) if(t->data[i][j] != m->data[i][j] || t2->data[i][j] != m->data[i][j]) eq = 0;
       VRT_EMIT("{\"e\":\"Copy\",\"id\":%ld,\"type\":-1,\"equal\":%d}", id, eq);
@@ -94,41 +239,50 @@ int main(int argc, char **argv){
       double A = ok_sizes ? avg->data[j] : NAN, S = ok_sizes ? sc->data[j] : NAN;
       long N = 0; int hm = 0; for(int i = 0; i < r; i++){ if(D(i, j) != MISS) N++; else hm = 1; }
       int p = 0;
-      p += snprintf(buf + p, sizeof buf - p, "{\"e\":\"Col\",\"id\":%ld,\"j\":%d,\"type\":%d,\"exp\":%d,\"piv\":%ld,\"hm\":%d,\"d\":[", id, j, type, e, piv[j], hm);
+      p += snprintf(buf + p, sizeof buf - p, "{\"e\":\"%s\",\"id\":%ld,\"j\":%d,\"type\":%d,\"exp\":%d,\"den\":%ld,\"piv\":%ld,\"hm\":%d,\"tags\":[%s],\"d\":[", ckind[j] == 'X' ? "DegCol" : "Col", id, j, type, e, q, piv[j], hm, ctags[j]);
       for(int i = 0; i < r; i++) p += snprintf(buf + p, sizeof buf - p, "%s%ld", i ? "," : "", D(i, j));
       snprintf(buf + p, sizeof buf - p, "]}");
       VRT_EMIT("%s", buf);
+      if(ckind[j] == 'X'){
+        int fin = 1, zero = 1; for(int i = 0; i < r; i++) if(D(i, j) != MISS){ if(!vfinite(t->data[i][j])) fin = 0; if(t->data[i][j] != 0.0) zero = 0; }
+        for(int i = 0; i < r; i++) if(!vfinite(t->data[i][j])) fin = 0;     /* nothing in the column may be NaN/Inf */
+        long s1 = N == 1 ? clampq((LD)A * unitfac - (LD)piv[j]) : 0;
+        VRT_EMIT("{\"e\":\"Deg\",\"id\":%ld,\"j\":%d,\"type\":%d,\"n\":%ld,\"sfin\":%d,\"fin\":%d,\"zero\":%d,\"s1\":%ld}", id, j, type, N, vfinite(A) && vfinite(S), fin, zero, s1);
+        continue;
+      }
       /* stored average */
-      double va = (A / u - (double)piv[j]) * (double)N; long s1 = clampq(va);
-      VRT_EMIT("{\"e\":\"Avg\",\"id\":%ld,\"j\":%d,\"type\":%d,\"hm\":%d,\"s1\":%ld,\"s1r\":%ld}", id, j, type, hm, s1, vq9(va - (double)s1));
+      LD va = ((LD)A * unitfac - (LD)piv[j]) * (LD)N; long s1 = clampq(va);
+      VRT_EMIT("{\"e\":\"Avg\",\"id\":%ld,\"j\":%d,\"type\":%d,\"hm\":%d,\"s1\":%ld,\"s1r\":%ld}", id, j, type, hm, s1, vq9((double)(va - (LD)s1)));
       /* stored scaling through its rational power */
-      double su = S / u, vs;
+      LD su = (LD)S * unitfac, vs;
       switch(type){
-        case 1: vs = su * su * (double)N * (double)(N - 1); break;
-        case 2: vs = su * su * (double)N; break;
-        case 3: vs = (S * S / u) * (S * S / u) * (double)N * (double)(N - 1); break;
+        case 1: vs = su * su * (LD)N * (LD)(N - 1); break;
+        case 2: vs = su * su * (LD)N; break;
+        case 3: { LD s2u = (LD)S * (LD)S * unitfac; vs = s2u * s2u * (LD)N * (LD)(N - 1); } break;
         case 4: vs = su; break;
-        case 5: vs = (su - (double)piv[j]) * (double)N; break;
+        case 5: vs = (su - (LD)piv[j]) * (LD)N; break;
         default: vs = S; break;
       }
-      long scq = clampq(vs); double den = fabs((double)scq) > 1 ? fabs((double)scq) : 1;
-      VRT_EMIT("{\"e\":\"Scale\",\"id\":%ld,\"j\":%d,\"type\":%d,\"hm\":%d,\"sc\":%ld,\"ra\":%ld,\"rr\":%ld,\"pos\":%d}", id, j, type, hm, scq, vq9(vs - (double)scq), vq12((vs - (double)scq) / den), S > 0 ? 1 : 0);
+      long scq = clampq(vs); LD den = fabsl((LD)scq) > 1 ? fabsl((LD)scq) : 1;
+      VRT_EMIT("{\"e\":\"Scale\",\"id\":%ld,\"j\":%d,\"type\":%d,\"hm\":%d,\"sc\":%ld,\"ra\":%ld,\"rr\":%ld,\"pos\":%d}", id, j, type, hm, scq, vq9((double)(vs - (LD)scq)), vq12((double)((vs - (LD)scq) / den)), S > 0 ? 1 : 0);
       /* transformed training cells */
-      int fin = 1, zero = 1, mz = 1; double worst = 0;
+      int fin = 1, zero = 1, mz = 1; long nz = 0; double worst = 0, tmax = 0;
+      int colzero = 1; for(int i = 0; i < r; i++) if(t->data[i][j] != 0.0) colzero = 0;
       p = snprintf(buf, sizeof buf, "{\"e\":\"Cells\",\"id\":%ld,\"j\":%d,\"type\":%d,\"hm\":%d,\"cn\":[", id, j, type, hm);
       for(int i = 0; i < r; i++){
-        long q = 0;
-        if(D(i, j) == MISS){ if(t->data[i][j] != 0.0) mz = 0; }
+        long qv = 0;
+        if(D(i, j) == MISS){ double pre = reuse ? PRE1 : 0.0, tvv = t->data[i][j]; if(!(colzero || tvv == pre / S || tvv == pre)) mz = 0; }
         else{
-          double tv = t->data[i][j];
-          if(!vfinite(tv)) fin = 0;
-          if(tv != 0.0) zero = 0;
-          double val = tv * S / u * (double)N; q = clampq(val);
-          double rs = fabs(val - (double)q); if(!(rs <= worst)) worst = rs;
+          double tvv = t->data[i][j];
+          if(!vfinite(tvv)) fin = 0;
+          if(tvv != 0.0){ zero = 0; nz++; }
+          if(!(fabs(tvv) <= tmax)) tmax = fabs(tvv);
+          LD val = (LD)tvv * (LD)S * unitfac * (LD)N; qv = clampq(val);
+          double rs = (double)fabsl(val - (LD)qv); if(!(rs <= worst)) worst = rs;
         }
-        p += snprintf(buf + p, sizeof buf - p, "%s%ld", i ? "," : "", q);
+        p += snprintf(buf + p, sizeof buf - p, "%s%ld", i ? "," : "", qv);
       }
-      snprintf(buf + p, sizeof buf - p, "],\"cnr\":%ld,\"fin\":%d,\"zero\":%d,\"mz\":%d}", vq9(worst), fin, zero, mz);
+      snprintf(buf + p, sizeof buf - p, "],\"cnr\":%ld,\"fin\":%d,\"zero\":%d,\"nz\":%ld,\"tmax\":%ld,\"mz\":%d}", vq9(worst), fin, zero, nz, vq12(tmax), mz);
       VRT_EMIT("%s", buf);
       /* apply on the same matrix */
       double wsame = 0;
@@ -142,22 +296,72 @@ int main(int argc, char **argv){
       fin = 1; zero = 1; worst = 0;
       p = snprintf(buf, sizeof buf, "{\"e\":\"New\",\"id\":%ld,\"j\":%d,\"type\":%d,\"hm\":%d,\"ny\":[%ld,%ld,%ld],\"cn\":[", id, j, type, hm, ny[0][j], ny[1][j], ny[2][j]);
       for(int a = 0; a < 3; a++){
-        double tv = ok_sizes ? t3->data[a][j] : NAN;
-        if(!vfinite(tv)) fin = 0;
-        if(tv != 0.0) zero = 0;
-        double val = tv * S / u * (double)N; long q = clampq(val);
-        double rs = fabs(val - (double)q); if(!(rs <= worst)) worst = rs;
-        p += snprintf(buf + p, sizeof buf - p, "%s%ld", a ? "," : "", q);
+        long qv = 0;
+        if(ny[a][j] != MISS){
+          double tvv = ok_sizes ? t3->data[a][j] : NAN;
+          if(!vfinite(tvv)) fin = 0;
+          if(tvv != 0.0) zero = 0;
+          LD val = (LD)tvv * (LD)S * unitfac * (LD)N; qv = clampq(val);
+          double rs = (double)fabsl(val - (LD)qv); if(!(rs <= worst)) worst = rs;
+        }
+        p += snprintf(buf + p, sizeof buf - p, "%s%ld", a ? "," : "", qv);
       }
       snprintf(buf + p, sizeof buf - p, "],\"cnr\":%ld,\"fin\":%d,\"zero\":%d}", vq9(worst), fin, zero);
       VRT_EMIT("%s", buf);
+      /* direct statistics */
+      if(da){
+        int szok = da->size == (size_t)c && ds->size == (size_t)c && dv->size == (size_t)c && dr->size == (size_t)c;
+        double xa = szok ? da->data[j] : NAN, xs = szok ? ds->data[j] : NAN, xv = szok ? dv->data[j] : NAN, xr = szok ? dr->data[j] : NAN, mn, mx;
+        MatrixColumnMinMax(m, (size_t)j, &mn, &mx);
+        LD v1 = ((LD)xa * unitfac - (LD)piv[j]) * (LD)N; long q1 = clampq(v1);
+        VRT_EMIT("{\"e\":\"Stat\",\"id\":%ld,\"j\":%d,\"type\":%d,\"fn\":\"avg\",\"q\":%ld,\"qr\":%ld,\"neg\":0,\"fin\":%d}", id, j, type, q1, vq9((double)(v1 - (LD)q1)), vfinite(xa));
+        LD s2 = (LD)xs * unitfac; LD v2 = s2 * s2 * (LD)N * (LD)(N - 1); long q2 = clampq(v2); LD d2 = fabsl((LD)q2) > 1 ? fabsl((LD)q2) : 1;
+        VRT_EMIT("{\"e\":\"Stat\",\"id\":%ld,\"j\":%d,\"type\":%d,\"fn\":\"sdev\",\"q\":%ld,\"qr\":%ld,\"neg\":%d,\"fin\":%d}", id, j, type, q2, vq12((double)((v2 - (LD)q2) / d2)), xs < 0, vfinite(xs));
+        LD v3 = (LD)xv * unitfac * unitfac * (LD)N * (LD)(N - 1); long q3 = clampq(v3); LD d3 = fabsl((LD)q3) > 1 ? fabsl((LD)q3) : 1;
+        VRT_EMIT("{\"e\":\"Stat\",\"id\":%ld,\"j\":%d,\"type\":%d,\"fn\":\"var\",\"q\":%ld,\"qr\":%ld,\"neg\":%d,\"fin\":%d}", id, j, type, q3, vq12((double)((v3 - (LD)q3) / d3)), xv < 0, vfinite(xv));
+        if(piv[j] <= 4000 && piv[j] >= -4000){
+          LD s4 = (LD)xr * unitfac; LD v4 = s4 * s4 * (LD)N; long q4 = clampq(v4); LD d4 = fabsl((LD)q4) > 1 ? fabsl((LD)q4) : 1;
+          VRT_EMIT("{\"e\":\"Stat\",\"id\":%ld,\"j\":%d,\"type\":%d,\"fn\":\"rms\",\"q\":%ld,\"qr\":%ld,\"neg\":%d,\"fin\":%d}", id, j, type, q4, vq12((double)((v4 - (LD)q4) / d4)), xr < 0, vfinite(xr));
+        }
+        LD v5 = (LD)mn * unitfac - (LD)piv[j]; long q5 = clampq(v5);
+        VRT_EMIT("{\"e\":\"Stat\",\"id\":%ld,\"j\":%d,\"type\":%d,\"fn\":\"min\",\"q\":%ld,\"qr\":%ld,\"neg\":0,\"fin\":%d}", id, j, type, q5, vq9((double)(v5 - (LD)q5)), vfinite(mn));
+        LD v6 = (LD)mx * unitfac - (LD)piv[j]; long q6 = clampq(v6);
+        VRT_EMIT("{\"e\":\"Stat\",\"id\":%ld,\"j\":%d,\"type\":%d,\"fn\":\"max\",\"q\":%ld,\"qr\":%ld,\"neg\":0,\"fin\":%d}", id, j, type, q6, vq9((double)(v6 - (LD)q6)), vfinite(mx));
+      }
+    }
+    if(da){ DelDVector(&da); DelDVector(&ds); DelDVector(&dv); DelDVector(&dr); }
+    /* K7: a fit of another shape, a fit of the same shape with other data, then the first matrix again into outputs that hold other data */
+    if(isK7 && type >= 0){
+      int r2 = r > 2 ? r - 1 : r + 1; matrix *mb, *tb; dvector *ab, *sb; NewMatrix(&mb, r2, c); NewMatrix(&tb, r2, c); initDVector(&ab); initDVector(&sb);
+      for(int i = 0; i < r2; i++) for(int j = 0; j < c; j++){ double x = m->data[i % r][j]; mb->data[i][j] = x == (double)MISS ? x : 1.5 * x + (double)(i * j % 7); }
+      MatrixPreprocess(mb, type, ab, sb, tb);
+      DelMatrix(&mb); DelMatrix(&tb); DelDVector(&ab); DelDVector(&sb);
+      /* ... then the same shape with other data ... */
+      NewMatrix(&mb, r, c); NewMatrix(&tb, r, c); initDVector(&ab); initDVector(&sb);
+      for(int i = 0; i < r; i++) for(int j = 0; j < c; j++){ double x = m->data[(i + 1) % r][j]; mb->data[i][j] = x == (double)MISS ? x : 0.75 * x - (double)((i + 2 * j) % 5); }
+      MatrixPreprocess(mb, type, ab, sb, tb);
+      DelMatrix(&mb); DelMatrix(&tb); DelDVector(&ab); DelDVector(&sb);
+      dvector *a2, *s2; initDVector(&a2); initDVector(&s2);
+      MatrixPreprocess(m, type, a2, s2, t2);                      /* t2 holds the re-applied transform of the first fit */
+      int eq = a2->size == avg->size && s2->size == sc->size; double wq = eq ? 0 : INFINITY;
+      for(size_t j = 0; eq && j < avg->size; j++){
+        double pa[2][2] = { {avg->data[j], a2->data[j]}, {sc->data[j], s2->data[j]} };
+        for(int k = 0; k < 2; k++){ double a = pa[k][0], b = pa[k][1]; if(memcmp(&a, &b, 8) && !(a == b)) eq = 0;
+          double dd = fabs(a - b), sden = fabs(a) > 1e-300 ? fabs(a) : (b == 0.0 ? 1.0 : 1e-300); if(!vfinite(b)) dd = INFINITY; if(!(dd / sden <= wq)) wq = dd / sden; }
+      }
+      if(a2->size == avg->size && s2->size == sc->size) for(int i = 0; i < r; i++) for(int j = 0; j < c; j++) if(D(i, j) != MISS){
+        double a = t->data[i][j], b = t2->data[i][j]; if(memcmp(&a, &b, 8) && !(a == b)) eq = 0;
+        double dd = fabs(a - b), sden = fabs(a) > 1e-300 ? fabs(a) : (b == 0.0 ? 1.0 : 1e-300); if(!vfinite(b)) dd = INFINITY; if(!(dd / sden <= wq)) wq = dd / sden;
+      }
+      VRT_EMIT("{\"e\":\"Again\",\"id\":%ld,\"type\":%d,\"q\":%ld,\"equal\":%d}", id, type, vq12(wq), eq);
+      DelDVector(&a2); DelDVector(&s2);
     }
     DelMatrix(&t2); DelMatrix(&y); DelMatrix(&t3);
     /* tensor: this matrix and up to three earlier ones of the same option */
-    if(keeptype != type){ for(int q = 0; q < nkeep; q++){ DelMatrix(&keep[q].m); DelMatrix(&keep[q].t); DelDVector(&keep[q].a); DelDVector(&keep[q].s); } nkeep = 0; keeptype = type; }
-    if(nkeep == KEEP){ DelMatrix(&keep[0].m); DelMatrix(&keep[0].t); DelDVector(&keep[0].a); DelDVector(&keep[0].s); for(int q = 1; q < KEEP; q++) keep[q-1] = keep[q]; nkeep--; }
+    if(keeptype != type){ for(int k = 0; k < nkeep; k++){ DelMatrix(&keep[k].m); DelMatrix(&keep[k].t); DelDVector(&keep[k].a); DelDVector(&keep[k].s); } nkeep = 0; keeptype = type; }
+    if(nkeep == KEEP){ DelMatrix(&keep[0].m); DelMatrix(&keep[0].t); DelDVector(&keep[0].a); DelDVector(&keep[0].s); for(int k = 1; k < KEEP; k++) keep[k-1] = keep[k]; nkeep--; }
     keep[nkeep].m = m; keep[nkeep].t = t; keep[nkeep].a = avg; keep[nkeep].s = sc; nkeep++;
-    {
+    if(!degmode){
       int nb = 1 + (int)(id % KEEP); if(nb > nkeep) nb = nkeep;
       tensor *T, *Tt; dvectorlist *la, *ls; NewTensor(&T, nb); NewTensor(&Tt, nb); initDVectorList(&la); initDVectorList(&ls);
       for(int b = 0; b < nb; b++){
@@ -171,13 +375,18 @@ int main(int argc, char **argv){
         kept *kb = &keep[nkeep - nb + b];
         if(la->d[b]->size != kb->a->size || ls->d[b]->size != kb->s->size){ ok = 0; break; }
         for(size_t j = 0; j < kb->a->size; j++) if(la->d[b]->data[j] != kb->a->data[j] || ls->d[b]->data[j] != kb->s->data[j]) ok = 0;
-        for(size_t i = 0; i < kb->t->row; i++) for(size_t j = 0; j < kb->t->col; j++) if(Tt->m[b]->data[i][j] != kb->t->data[i][j]) ok = 0;
+        /* cells the fit writes: every cell of a zero-scale column, the non-MISSING cells otherwise (a kept output may hold the K7 prefill at MISSING cells) */
+        for(size_t i = 0; i < kb->t->row; i++) for(size_t j = 0; j < kb->t->col; j++){
+          if(kb->m->data[i][j] == (double)MISS && kb->t->data[i][j] != 0.0) continue;
+          if(Tt->m[b]->data[i][j] != kb->t->data[i][j]) ok = 0;
+        }
       }
       VRT_EMIT("{\"e\":\"Tensor\",\"id\":%ld,\"type\":%d,\"nb\":%d,\"equal\":%d}", id, type, nb, ok);
       DelTensor(&T); DelTensor(&Tt); DelDVectorList(&la); DelDVectorList(&ls);
     }
     free(d); free(piv);
   }
+  for(int k = 0; k < nkeep; k++){ DelMatrix(&keep[k].m); DelMatrix(&keep[k].t); DelDVector(&keep[k].a); DelDVector(&keep[k].s); }
   vrt_close();
   return 0;
 }
